@@ -44,6 +44,7 @@ REQUIRED_THEOREMS = [
     "C05_overwrite_flag", "C05_overwrite_any_form",   # round 4: `overwrite` as the object the caller passed
     "C05_call_forms", "C05_vector_form_is_row", "C05_call_forms_ha",   # extension round 2: auto_unsqueeze_args inside the model
     "C05_sample_out_identity", "C05_sample_step_law", "C05_gibbs_step_buffers",   # extension round 2: one-step samplers with their out= buffer
+    "C05_call_shapes_list", "C05_call_shapes", "C05_call_contents", "C05_replay_length",   # late: callShapes = the draw count of every path of gibbsStepsB / sampleFrom
 ]
 EXTRA_TRUSTED = [
     "torch.bernoulli(p) draws independent Bernoulli(p) bits (the replay replaces it by a recorder; the thorough tier "
